@@ -9,8 +9,8 @@ META = dict(
     text="BlockTemplate.tla states the property as a relation ValidTemplate(template, pool, prioritisation, chain, options), one operator per clause: "
          "every transaction is in the pool once; each comes after all of its unconfirmed parents; reserved weight + transaction weights within the "
          "configured maximum and sigop cost + the reserved coinbase allowance within 80,000; the per-transaction fee / sigop fields are the real ones; every "
-         "transaction final at (height+1, median time past of the tip); coinbase value = subsidy(height+1) + the sum of the REAL fees (not the prioritised "
-         "ones); the reported package feerates are those of consecutive groups of the template and none is below the configured minimum; and the "
+         "transaction final at (height+1, median time past of the tip); the coinbase value and the block_reward_remaining field = subsidy(height+1) + the sum of the REAL fees (not the "
+         "prioritised ones), summed exactly in wide arithmetic (single fees above 2^32 satoshi, totals crossing 2^31 and 2^32 included); the reported package feerates are those of consecutive groups of the template and none is below the configured minimum; and the "
          "template connects as a block under UtxoChain's rules (inputs, maturity, amounts, BIP68, scripts, BIP30). The same module models the design "
          "(BlockAssembler::addChunks over the clusters' optimal chunks, skip-cluster on misfit, stop below the minimum feerate) and TLC proves on every "
          "reachable mempool of the bounded scenarios and every row of a state-dependent option grid that the design's template satisfies the relation. "
@@ -37,6 +37,14 @@ CLAUSE = dict(ObsPoolKnown="the observed mempool holds a transaction outside the
               ObsConnect="the template does not connect under the consensus rules", ObsAccepted="the node rejects a template the rules accept")
 
 
+WB = 10 ** 9
+
+
+def wv(w):
+    """wide value {q, r} -> integer"""
+    return w["q"] * WB + w["r"]
+
+
 def prepare(ctx, binary):
     r = ctx.tlc(SPEC, "MU_tpl", "MU_std.cfg", name="MU_tpl", workers=1)
     rows = [x for x in vflib.load_emitted(r.emit_path) if "universe" in x]
@@ -49,16 +57,16 @@ def prepare(ctx, binary):
     meas = [json.loads(l) for l in open(mpath) if l.startswith("{")]
     if len(meas) != len(universe["universe"]):
         raise vflib.InfraError("measure step returned %d transactions for a universe of %d" % (len(meas), len(universe["universe"])))
-    val = {(0, i + 1): c["v"] for i, c in enumerate(universe["base"])}
+    val = {(0, i + 1): wv(c["v"]) for i, c in enumerate(universe["base"])}
     for t, T in enumerate(universe["universe"], 1):
         for i, o in enumerate(T["outs"], 1):
-            val[(t, i)] = o["v"]
+            val[(t, i)] = wv(o["v"])
     for t, T in enumerate(universe["universe"], 1):
         ins = [tuple(i["op"]) for i in T["ins"]]
-        fee = sum(val[k] for k in ins) - sum(o["v"] for o in T["outs"]) - T["msig"]["n"] * T["msig"]["v"]
-        if fee != meas[t - 1]["fee"]:
+        fee = sum(val[k] for k in ins) - sum(wv(o["v"]) for o in T["outs"]) - T["msig"]["n"] * T["msig"]["v"]
+        if fee != wv(meas[t - 1]["fee"]):
             raise vflib.InfraError("universe tx %d: measured fee %s differs from the definition's %s" % (t, meas[t - 1]["fee"], fee))
-    ctx.extra["measured_universe_fee_vsize_weight_sigops"] = [[m["fee"], m["vsize"], m["weight"], m["sigops"]] for m in meas]
+    ctx.extra["measured_universe_fee_vsize_weight_sigops"] = [[wv(m["fee"]), m["vsize"], m["weight"], m["sigops"]] for m in meas]
     return upath, mpath, universe, meas
 
 
@@ -194,13 +202,18 @@ def run_scenario(ctx, binary, cfg, upath, mpath, max_tests, stats):
         if len(txs) < len(t["pool"]):
             stats["templates_leaving_something_out"] += 1
         stats["max_template_len"] = max(stats["max_template_len"], len(txs))
+        total = sum(wv(f) for f in t["tpl"]["fees"])
+        stats["templates_with_fees_%s" % ("below_2^31" if total < 2 ** 31 else "from_2^31_below_2^32" if total < 2 ** 32 else "from_2^32")] += 1
+        if any(wv(f) >= 2 ** 32 for f in t["tpl"]["fees"]):
+            stats["templates_with_a_single_fee_from_2^32"] += 1
     for t in traces:
         t["_cfg"] = cfg; t["_case"] = res["lines"][t["index"]] if "index" in t else None
     if traces:
         full = [t for t in traces if "tpl" in t and len(t["tpl"]["txs"]) >= 2]
         if full:
             t = full[len(full) // 2]
-            ctx.sample(dict(scenario=cfg, pool=t["pool"], options=t["o"], template=t["tpl"]["txs"], fees=t["tpl"]["fees"], tbv=t["tbv"], pnb=t["pnb"]))
+            ctx.sample(dict(scenario=cfg, pool=t["pool"], options=dict(t["o"], minf=wv(t["o"]["minf"])), template=t["tpl"]["txs"], fees=[wv(f) for f in t["tpl"]["fees"]],
+                            coinbase_pays=wv(t["tpl"]["cb"]), tbv=t["tbv"], pnb=t["pnb"]))
     return traces
 
 
@@ -217,10 +230,12 @@ def judge_all(ctx, traces, mpath, upath, stats):
             continue
         seen.add(key)
         case = json.loads(t["_case"]) if t.get("_case") else None
-        what = ("%s: template %s (fees %s, coinbase %s.%08d BTC, height %s, packages %s; TestBlockValidity: %s, ProcessNewBlock: %s) built from pool %s, deltas %s, "
-                "%d blocks above the base tip, options %s breaks %s" % (
-                    CLAUSE.get(inv, inv), t["tpl"]["txs"], t["tpl"]["fees"], t["tpl"]["cbq"], t["tpl"]["cbr"], t["tpl"]["height"], vflib.canon(t["tpl"]["pkgs"]),
-                    t["tbv"], t["pnb"], t["pool"], {i + 1: d for i, d in enumerate(t["delta"]) if d}, len(t["chain"]), vflib.canon(t["o"]), inv))
+        opt = dict(t["o"], minf=wv(t["o"]["minf"]))
+        what = ("%s: template %s (fees %s, coinbase pays %d sat, block_reward_remaining %d sat, height %s, packages %s; TestBlockValidity: %s, ProcessNewBlock: %s) "
+                "built from pool %s, deltas %s, %d blocks above the base tip, options %s breaks %s" % (
+                    CLAUSE.get(inv, inv), t["tpl"]["txs"], [wv(f) for f in t["tpl"]["fees"]], wv(t["tpl"]["cb"]), wv(t["tpl"]["rw"]), t["tpl"]["height"],
+                    [(wv(p["f"]), p["s"]) for p in t["tpl"]["pkgs"]], t["tbv"], t["pnb"], t["pool"], {i + 1: d for i, d in enumerate(t["delta"]) if d},
+                    len(t["chain"]), vflib.canon(opt), inv))
         ctx.violation(key, what, dict(adapter="blocktemplate", mode="replay", args=args, case=case, observation=obs_line(t), invariant=inv, scenario=cfg))
 
 
@@ -243,8 +258,8 @@ def run(ctx):
     binary = ctx.build_adapter("blocktemplate")
     upath, mpath, universe, meas = prepare(ctx, binary)
     quick = ctx.tier == "quick"
-    plan = [("MC_cpfp_q.cfg", 60), ("MC_locks_q.cfg", 60), ("MC_sig_q.cfg", 40)] if quick else \
-           [("MC_cpfp_t.cfg", 100000), ("MC_locks_t.cfg", 100000), ("MC_sig_t.cfg", 100000), ("MC_mix_t.cfg", 100000)]
+    plan = [("MC_cpfp_q.cfg", 60), ("MC_locks_q.cfg", 60), ("MC_sig_q.cfg", 40), ("MC_huge_q.cfg", 60)] if quick else \
+           [("MC_cpfp_t.cfg", 100000), ("MC_locks_t.cfg", 100000), ("MC_sig_t.cfg", 100000), ("MC_huge_t.cfg", 100000), ("MC_mix_t.cfg", 100000)]
     only = os.environ.get("VERIF_C23_ONLY")
     if only:
         plan = [p for p in plan if only in p[0]]
@@ -265,9 +280,12 @@ def run(ctx):
             raise vflib.InfraError("vacuity: no option row of the grid exercises %s" % missing)
         if not stats["templates_leaving_something_out"] or stats["max_template_len"] < 4:
             raise vflib.InfraError("vacuity: the real templates never leave a pool transaction out / never hold 4 transactions")
+        for k in ("templates_with_fees_from_2^31_below_2^32", "templates_with_fees_from_2^32", "templates_with_a_single_fee_from_2^32"):
+            if not stats[k]:
+                raise vflib.InfraError("vacuity: no real template has %s satoshi" % k.replace("templates_with_", "").replace("_", " "))
         if hs.get("blocks_submitted", 0) == 0:
             raise vflib.InfraError("vacuity: no template was mined and submitted")
-    ctx.assumptions += ["148-block regtest base chain, universe of 14 transactions with measured fee / weight / sigop cost; the node runs with -acceptnonstdtxn=1",
+    ctx.assumptions += ["148-block regtest base chain, universe of 18 transactions with measured fee / weight / sigop cost; the node runs with -acceptnonstdtxn=1",
                         "non-final entries are placed into the mempool with the test-only TryAddToMempool (the acceptance rules never admit them)",
                         "templates for the same state and transaction list share one TestBlockValidity / ProcessNewBlock verdict; after a connected template the block is "
                         "invalidated and the mempool restored through injection"]
